@@ -47,6 +47,8 @@ pub mod state_machine;
 pub mod term_helpers;
 pub mod transport;
 pub mod types;
+#[cfg(edp_verif)]
+pub mod verif;
 
 pub use connection::{Connection, ConnectionConfig};
 pub use errors::{Error, Result};
@@ -54,5 +56,8 @@ pub use flags::DistributionFlags;
 pub use pid_allocator::PidAllocator;
 pub use state_machine::ConnectionState;
 pub use term_helpers::nil;
+#[cfg(not(edp_verif))]
 pub use tokio::net::tcp::OwnedReadHalf;
+#[cfg(edp_verif)]
+pub use verif::OwnedReadHalf;
 pub use types::{Creation, SequenceId};
